@@ -2,39 +2,53 @@
    fresh one.  Statements only.
    load_seq / load_fwd / load_fixed / load_vbool / load_set / load_mmap / load_map / load_ptr mirror
    SerializeContainer and its relatives for ANY element type A, element document D, state S and
-   element loader el (ArchModel.v part 1a); [est] is whatever GetEstimatedSize() reports (right, wrong
-   or 0); fresh_elems (ArchSpec.v) is the declarative content of a loaded sequence;
-   prior_independent el dflt Q P: the element loader ignores the previous element value for targets
-   in Q and documents in P.  load / wt / all_load / has_unloaded: the type universe of part 1b. *)
+   element loader el (ArchModel.v part 1a); the boolean after dflt is std::is_move_assignable_v of the
+   element type; [est] is whatever GetEstimatedSize() reports (right, wrong or 0); fresh_elems
+   (ArchSpec.v) is the declarative content of a loaded sequence; prior_independent el dflt Q P: the
+   element loader ignores the previous element value for targets in Q and documents in P;
+   prior_independent_when_loaded: the weaker form (value compared only when loaded).  load / wt / all_load / has_unloaded: the type universe of part 1b. *)
 From BS Require Import Base ArchSpec ArchModel ArchLemmas ArchProofs.
 
-(* SerializeContainer (vector, deque, list, queue, stack, priority_queue): for ANY prior content and
-   ANY estimate the result is the one of a fresh target, namely one freshly loaded element per
-   element document *)
+(* SerializeContainer (vector, deque, list, queue, stack, priority_queue) over a move-assignable
+   element type: for ANY prior content and ANY estimate the result is the one of a fresh target,
+   namely one freshly loaded element per element document.  Hypothesis on the element loader: its
+   exceptions, "loaded" result, state and - when loaded - value do not depend on the prior element
+   (an element that is not loaded is reset since 772314c), and "not loaded" leaves a fresh element fresh *)
 Theorem T_C18_seq : forall (A D S : Type) (el : A -> D -> S -> outcome (A * bool * S)) (dflt : A)
     (Q : A -> Prop) (P : D -> Prop),
-  prior_independent el dflt Q P -> Q dflt ->
+  prior_independent_when_loaded el dflt Q P -> unloaded_keeps_fresh el dflt P -> Q dflt ->
   forall prior est data s, Forall Q prior -> Forall P data ->
-    load_seq el dflt prior est data s = load_seq el dflt [] 0 data s /\
-    load_seq el dflt prior est data s = fresh_elems el dflt data s.
+    load_seq el dflt true prior est data s = load_seq el dflt true [] 0 data s /\
+    load_seq el dflt true prior est data s = fresh_elems el dflt data s.
 Proof. exact @seq_populated_eq_fresh. Qed.
 Print Assumptions T_C18_seq.
 
-(* the same with the hypothesis in its plain form: every element load is independent of the prior
-   element value *)
-Theorem T_C18_seq_plain : forall (A D S : Type) (el : A -> D -> S -> outcome (A * bool * S)) (dflt : A),
+(* element type without move assignment (no reset is compiled in): the loader itself must ignore the
+   prior element *)
+Theorem T_C18_seq_nonassignable : forall (A D S : Type) (el : A -> D -> S -> outcome (A * bool * S)) (dflt : A)
+    (Q : A -> Prop) (P : D -> Prop),
+  prior_independent el dflt Q P -> Q dflt ->
+  forall prior est data s, Forall Q prior -> Forall P data ->
+    load_seq el dflt false prior est data s = load_seq el dflt false [] 0 data s /\
+    load_seq el dflt false prior est data s = fresh_elems el dflt data s.
+Proof. exact @seq_populated_eq_fresh_nonassignable. Qed.
+Print Assumptions T_C18_seq_nonassignable.
+
+(* the hypothesis in its plain form: every element load is independent of the prior element value *)
+Theorem T_C18_seq_plain : forall (A D S : Type) (el : A -> D -> S -> outcome (A * bool * S)) (dflt : A) (asg : bool),
   (forall p d s, el p d s = el dflt d s) ->
-  forall prior est data s, load_seq el dflt prior est data s = load_seq el dflt [] 0 data s.
+  (forall d s v s', el dflt d s = Ok (v, false, s') -> v = dflt) ->
+  forall prior est data s, load_seq el dflt asg prior est data s = load_seq el dflt asg [] 0 data s.
 Proof. exact @seq_populated_eq_fresh_plain. Qed.
 Print Assumptions T_C18_seq_plain.
 
 (* std::forward_list (resize(1) seed, emplace_after) *)
 Theorem T_C18_forward_list : forall (A D S : Type) (el : A -> D -> S -> outcome (A * bool * S)) (dflt : A)
     (Q : A -> Prop) (P : D -> Prop),
-  prior_independent el dflt Q P -> Q dflt ->
+  prior_independent_when_loaded el dflt Q P -> unloaded_keeps_fresh el dflt P -> Q dflt ->
   forall prior est data s, Forall Q prior -> Forall P data ->
-    load_fwd el dflt prior est data s = load_fwd el dflt [] 0 data s /\
-    load_fwd el dflt prior est data s = fresh_elems el dflt data s.
+    load_fwd el dflt true prior est data s = load_fwd el dflt true [] 0 data s /\
+    load_fwd el dflt true prior est data s = fresh_elems el dflt data s.
 Proof. exact @fwd_populated_eq_fresh. Qed.
 Print Assumptions T_C18_forward_list.
 
@@ -57,23 +71,31 @@ Print Assumptions T_C18_vector_bool.
 (* valarray (temporary vector), sets / multisets, multimaps, maps in Clean mode: the prior content is
    never looked at *)
 Theorem T_C18_cleared_first : forall (A D S K V DK : Type) (el : A -> D -> S -> outcome (A * bool * S)) (dflt : A)
-    (ins : A -> list A -> list A) (sc : bool)
+    (asg : bool) (ins : A -> list A -> list A)
     (keq : K -> K -> bool) (kconv : DK -> outcome (option K)) (vload : DK -> V -> S -> outcome (V * bool * S)) (vdflt : V),
-  (forall prior est data s, load_valarray el dflt prior est data s = load_valarray el dflt [] est data s) /\
-  (forall prior data s, load_set el dflt ins sc prior data s = load_set el dflt ins sc [] data s) /\
+  (forall prior est data s, load_valarray el dflt asg prior est data s = load_valarray el dflt asg [] est data s) /\
+  (forall prior data s, load_set el dflt ins prior data s = load_set el dflt ins [] data s) /\
   (forall prior data s, load_mmap el dflt prior data s = load_mmap el dflt [] data s) /\
   (forall prior aks s, load_map keq kconv vload vdflt Clean prior aks s = load_map keq kconv vload vdflt Clean [] aks s).
 Proof. exact @cleared_first. Qed.
 Print Assumptions T_C18_cleared_first.
 
-(* nested closure: the hypothesis is re-established one level up, for sequences and for
-   optional / unique_ptr / shared_ptr *)
+(* nested closure: the hypothesis is re-established one level up - a sequence container is a
+   prior-independent element loader (in the strong sense) on array documents whose elements are in P -
+   and likewise for optional / unique_ptr / shared_ptr *)
 Theorem T_C18_nested : forall (A D S : Type) (el : A -> D -> S -> outcome (A * bool * S)) (dflt : A)
     (Q : A -> Prop) (P : D -> Prop),
-  prior_independent el dflt Q P -> Q dflt ->
-  prior_independent (seq_as_element el dflt) [] (Forall Q) (fun dv => Forall P (snd dv)).
+  prior_independent_when_loaded el dflt Q P -> unloaded_keeps_fresh el dflt P -> Q dflt ->
+  prior_independent (seq_as_element el dflt true) [] (Forall Q) (fun dv => Forall P (snd dv)).
 Proof. exact @seq_as_element_independent. Qed.
 Print Assumptions T_C18_nested.
+
+Theorem T_C18_nested_nonassignable : forall (A D S : Type) (el : A -> D -> S -> outcome (A * bool * S)) (dflt : A)
+    (Q : A -> Prop) (P : D -> Prop),
+  prior_independent el dflt Q P -> Q dflt ->
+  prior_independent (seq_as_element el dflt false) [] (Forall Q) (fun dv => Forall P (snd dv)).
+Proof. exact @seq_as_element_independent_nonassignable. Qed.
+Print Assumptions T_C18_nested_nonassignable.
 
 Theorem T_C18_nested_ptr : forall (A D S : Type) (el : A -> D -> S -> outcome (A * bool * S)) (dflt : A)
     (Q : A -> Prop) (P : D -> Prop),
@@ -83,8 +105,9 @@ Proof. exact @ptr_as_element_independent. Qed.
 Print Assumptions T_C18_nested_ptr.
 
 (* ... so that it holds for every type of the universe (induction on the type descriptor).
-   Full strength: for EVERY document.  That is false (F36: an element / member that is not loaded
-   keeps the stale value; a document that is not loaded at all leaves the target as it was). *)
+   Full strength: for EVERY document.  That is still false after 772314c (what remains of F36): an
+   element of a fixed-size array or a member of a pair that is not loaded keeps the stale value, and a
+   document that is not loaded at all leaves the target as it was. *)
 Theorem T_C18_all_types_refuted : ~ C18_all_types_statement.
 Proof. exact all_types_refuted. Qed.
 Print Assumptions T_C18_all_types_refuted.
@@ -130,12 +153,20 @@ Print Assumptions T_C18_update_keys.
 
 (* ---- witnesses and non-vacuity ---- *)
 
-(* F36 on the model: JSON [null,2] into vector<int>{7,8} gives {7,2}, into a fresh vector {0,2} *)
-Example T_C18_example_F36 :
-  load json_arch default_pols (TSeq SVector TInt) [7; 8]%Z (DArr 2 [DNull; DInt 2]) = Ok ([7; 2]%Z, true) /\
-  load json_arch default_pols (TSeq SVector TInt) [] (DArr 2 [DNull; DInt 2]) = Ok ([0; 2]%Z, true).
-Proof. exact F36_witness. Qed.
-Print Assumptions T_C18_example_F36.
+(* what remains of F36, on the model: JSON [null,2,null] into std::array<int,3>{7,8,9} gives {7,2,9},
+   into a value-initialised array {0,2,0} *)
+Example T_C18_example_stale :
+  load json_arch default_pols (TArr 3 TInt) [7; 8; 9]%Z (DArr 3 [DNull; DInt 2; DNull]) = Ok ([7; 2; 9]%Z, true) /\
+  load json_arch default_pols (TArr 3 TInt) [0; 0; 0]%Z (DArr 3 [DNull; DInt 2; DNull]) = Ok ([0; 2; 0]%Z, true).
+Proof. exact stale_witness. Qed.
+Print Assumptions T_C18_example_stale.
+
+(* the repaired witness of F36: JSON [null,2] into vector<int>{7,8} gives {0,2} and is outside the defect class *)
+Example T_C18_example_F36_repaired :
+  load json_arch default_pols (TSeq SVector TInt) [7; 8]%Z (DArr 2 [DNull; DInt 2]) = Ok ([0; 2]%Z, true) /\
+  has_unloaded json_arch default_pols (TSeq SVector TInt) (DArr 2 [DNull; DInt 2]) = false.
+Proof. exact F36_repaired. Qed.
+Print Assumptions T_C18_example_F36_repaired.
 
 (* a nested target longer than the data, with a wrong estimate: the hypotheses of _outside hold and
    nothing stale survives *)
